@@ -66,6 +66,8 @@ pub struct Route {
     pub time_first: bool,
     /// the chain reads through read_string() (Start entry only)
     pub text_chain: bool,
+    /// bit s set: the caller has closed its own standard descriptor s (a daemon); the numbers are free when the exchange starts
+    pub free_std: u8,
 }
 
 #[derive(Clone, Debug)]
@@ -197,6 +199,7 @@ pub fn exchange(ctx: &mut Ctx, cfg: &Xcfg) -> Xres {
             plan::OPS_BUDGET.store(cfg.ops_budget, std::sync::atomic::Ordering::SeqCst);
         }
     };
+    let holes: Option<crate::spawn::StdHoles>;
     match cfg.entry {
         Entry::PipelineCapture | Entry::PipelineCommunicate => {
             // stage 1 copies its input verbatim (a=1, b=0) and appends the trailer [1:len:hash]
@@ -213,6 +216,7 @@ pub fn exchange(ctx: &mut Ctx, cfg: &Xcfg) -> Xres {
             if cfg.route.via_clone {
                 pl = pl.clone();
             }
+            holes = if cfg.route.free_std != 0 { Some(crate::spawn::StdHoles::make(cfg.route.free_std)) } else { None };
             arm_io_rules(&mut short_rules);
             if cfg.entry == Entry::PipelineCapture {
                 let m = run::monitored(|| pl.capture());
@@ -262,6 +266,7 @@ pub fn exchange(ctx: &mut Ctx, cfg: &Xcfg) -> Xres {
             if cfg.route.via_clone {
                 e = e.clone();
             }
+            holes = if cfg.route.free_std != 0 { Some(crate::spawn::StdHoles::make(cfg.route.free_std)) } else { None };
             arm_io_rules(&mut short_rules);
             if let Some((cap, cost)) = cfg.vclock {
                 vclock::enable_pure(cap, 0, cfg.seed, 1000, cost);
@@ -322,6 +327,7 @@ pub fn exchange(ctx: &mut Ctx, cfg: &Xcfg) -> Xres {
                 ..Default::default()
             };
             let config = if cfg.route.via_clone { config.try_clone().expect("try_clone") } else { config };
+            holes = if cfg.route.free_std != 0 { Some(crate::spawn::StdHoles::make(cfg.route.free_std)) } else { None };
             let m0 = run::monitored(|| Popen::create(&argv, config));
             match m0.result {
                 Some(Ok(mut p)) => {
@@ -427,6 +433,7 @@ pub fn exchange(ctx: &mut Ctx, cfg: &Xcfg) -> Xres {
         }
     }
     vclock::disable();
+    drop(holes);
     res.budget_hit = plan::BUDGET_HIT.load(std::sync::atomic::Ordering::SeqCst) > 0;
     res.short_fired = short_rules.iter().map(|&i| plan::fired(i)).sum();
     res.overflow = ilog::overflowed();
